@@ -36,7 +36,8 @@ def variant_string(lr, kind):
 class G:
     def __init__(self, rng, vocab=None, depth=4, collide=False, lit_rng=None, vary_nums=False, vary_bools=False, fields=None, ns_tokens=False):
         self.r = rng
-        self.fields = fields or USER_FIELDS
+        # user fields; plus every bare word that is a top-level key of the tables consulted for any key (a field of that name must be treated like any other)
+        self.fields = fields or (USER_FIELDS + list((vocab or {}).get('bare_top', [])))
         self.ns_tokens = ns_tokens
         self.ns_names = []
         self.lr = lit_rng
@@ -54,7 +55,7 @@ class G:
     def s_string(self, where):
         """a sensitive string of a random lexical class"""
         core = self.p.core(True)
-        k = self.r.choice(['ascii', 'ascii', 'unicode', 'astral', 'email', 'email_mixed', 'dollar_mid', 'digits', 'escapes', 'empty', 'lookalike', 'long', 'padded_email', 'percent'])
+        k = self.r.choice(['ascii', 'ascii', 'unicode', 'astral', 'email', 'email_mixed', 'dollar_mid', 'digits', 'escapes', 'empty', 'lookalike', 'long', 'padded_email', 'percent', 'at_nonmail'])
         self.hit('lit_' + k)
         if k == 'ascii': s = 'secret ' + core
         elif k == 'unicode': s = 'résumé ' + core + ' 中文'
@@ -62,6 +63,7 @@ class G:
         elif k == 'email': s = core.lower() + '@example.com'; core = core.lower()
         elif k == 'email_mixed': s = core + '.Name@Example.COM'
         elif k == 'percent': s = '100% ' + core + ' %s %d %%'
+        elif k == 'at_nonmail': s = self.r.choice(['svc_%s@db-host:27017', 'deploy@build01.example.org/%s', 'meet %s@noon today', '%s@my_host', 'a@%s@c', '@%s', '%s@example.org.']) % core
         elif k == 'padded_email':
             core = core.lower()
             s = self.r.choice([' %s@example.com', '%s@example.com ', '\t%s@example.com\n', ' %s@example.com  ']) % core
@@ -435,7 +437,7 @@ def command_line(rng, vocab=None, collide=False, depth=4, lit_rng=None, vary_num
     db, coll = (db or db0), (coll or coll0)
     placement = rng.choice(['command', 'command', 'command', 'cmd', 'originatingCommand', 'both', 'write'])
     comp = rng.choice(['COMMAND', 'COMMAND', 'QUERY', 'WRITE', 'slow'])
-    attr = {'type': 'command', 'ns': db + '.' + coll, 'appName': rng.choice(['app', 'app', 'C:\\Program Files\\Shop\\orders.exe', 'tool\\u0041v1', 'a/b c'])}
+    attr = {'type': 'command', 'ns': db + '.' + coll, 'appName': rng.choice(['app', 'app', 'C:\\Program Files\\Shop\\orders.exe', 'tool\\u0041v1', 'a/b c', 'web%2Fcheckout 95%', '%s'])}
     verbs = []
     if placement == 'write':
         comp = 'WRITE'
@@ -479,7 +481,7 @@ def anyjson_tree(rng, vocab, depth=0, maxdepth=5):
     if depth >= maxdepth: ks = ['str', 'num', 'bool', 'null', 'emptyobj', 'emptyarr', 'dollar']
     k = rng.choice(ks)
     if k == 'str': return rng.choice(['x', '', 'a@b.co', 'héllo', '2024-01-01T00:00:00Z', 'REDACTED', '0123456789abcdef01234567', 'a"b\\c\n', '\U0001F600', '<tag>&',
-                                      'C:\\dir\\file.txt', 'lit\\u0041esc', 'trail\\', '\x1b[31mred\x1b[0m', 'bell\x07', 'vt\x0b ff\x0c bs\x08', 'del\x7f', 'tag\U000e0001x', 'nbsp\u00a0 ls\u2028 ps\u2029', '\ufeffbom', 'nul\x00z'])
+                                      'C:\\dir\\file.txt', 'lit\\u0041esc', 'trail\\', '100% sure', '%s%d%v%n', 'web%2Fcheckout', '%"q', '\x1b[31mred\x1b[0m', 'bell\x07', 'vt\x0b ff\x0c bs\x08', 'del\x7f', 'tag\U000e0001x', 'nbsp\u00a0 ls\u2028 ps\u2029', '\ufeffbom', 'nul\x00z'])
     if k == 'dollar': return rng.choice(['$name', '$$ROOT', '$', '$a.b', '$eq', '$limit'])
     if k == 'num': return RawNum(rng.choice(['0', '1', '-1', '1.5', '1e10', '-0', '12345678901234567890', '0.1e-7', '1E+2', '9007199254740993', '-0.0', '-0e0', '0.0', '1.0', '100e-2', '1E0', '0.10', '1e400', '-1e-400', '0.0000001', '-0.0000005', '1000000000000000000000', '0.000001', '999999999999999999999.5']))
     if k == 'bool': return rng.choice([True, False])
@@ -489,7 +491,7 @@ def anyjson_tree(rng, vocab, depth=0, maxdepth=5):
     if k == 'arr': return [anyjson_tree(rng, vocab, depth + 1, maxdepth) for _ in range(rng.randint(1, 3))]
     d = {}
     for _ in range(rng.randint(1, 4)):
-        key = rng.choice(vocab['all']) if rng.random() < 0.6 else rng.choice(USER_FIELDS + ['', 'a.b', '$x', 'k"q', 'na\x01me', 'k\x7f', 'esc\x1bkey', 'bell\x07', 'tab\tkey', 'ключ', 'k\u2028e', 'back\\slash'])
+        key = rng.choice(vocab['all']) if rng.random() < 0.6 else rng.choice(USER_FIELDS + ['', 'a.b', '$x', 'k"q', 'na\x01me', 'k\x7f', 'discount%', 'a%b', '%d', 'esc\x1bkey', 'bell\x07', 'tab\tkey', 'ключ', 'k\u2028e', 'back\\slash'])
         d[key] = anyjson_tree(rng, vocab, depth + 1, maxdepth)
     return d
 
@@ -594,7 +596,8 @@ def vocab_from_dump(dump):
     for k in allk:
         if k not in seen:
             seen.add(k); a2.append(k)
-    return {'all': a2, 'argnames': sorted(set(argnames)), 'search_ops': [k for k, _ in dump['tables']['Search']['m']], 'search_stages': [k for k, _ in dump['tables']['SearchAgg']['m']]}
+    bare = [k for name in ('Core', 'Agg') for k, _ in dump['tables'][name]['m'] if not k.startswith('$')]
+    return {'all': a2, 'argnames': sorted(set(argnames)), 'bare_top': bare, 'search_ops': [k for k, _ in dump['tables']['Search']['m']], 'search_stages': [k for k, _ in dump['tables']['SearchAgg']['m']]}
 
 
 # ---------- plan summaries with awkward index-key names ----------
